@@ -438,6 +438,29 @@ def c10_census():
     return {"functions": len(got), "sites": sum(len(v) for v in got.values()), "ties": ties}
 
 
+
+def rawadopt_run():
+    """C12 on payloads the history harness does not have (zero-sized, byte, word, 16- and 64-aligned): two nodes
+    adopting each other, a strong handle through into_raw / increment / decrement / from_raw, a Weak through
+    into_raw / from_raw, get_mut / try_unwrap refused, then both outside handles dropped: the pair is collected.
+    The harness compares every step with the values the calls imply (harness/src/rawadopt.rs)."""
+    try:
+        p = subprocess.run([P.HARNESS, "rawadopt"], stdout=subprocess.PIPE, stderr=subprocess.PIPE, timeout=120)
+        out, rc = p.stdout.decode(errors="replace"), p.returncode
+    except subprocess.TimeoutExpired:
+        out, rc = "", "timeout"
+    m = re.search(r"RAWADOPT lines=(\d+) differences=(\d+)", out)
+    hits = []
+    if rc != 0 or not m:
+        hits.append({"type": "oracle", "hid": "rawadopt", "line": "crharness rawadopt", "idx": 0,
+                     "oracle": "C12:rawadopt-run-failed:rc=%s" % rc, "disc": "1", "d4": "0", "shrinkable": False})
+    for d in [l for l in out.split("\n") if l.startswith("RAWDIFF")][:10]:
+        hits.append({"type": "oracle", "hid": "rawadopt", "line": d, "idx": 0,
+                     "oracle": "C12:raw-api-on-adopted-object:" + re.sub(r"[^\w=\[\]-]+", "_", d)[:120],
+                     "disc": "1", "d4": "0", "shrinkable": False})
+    return {"lines": int(m.group(1)) if m else 0, "hits": hits}
+
+
 def extra_checks(pid, cfg, tier, seed):
     if pid == "C02" and tier == "thorough":
         r = _cached("asan-%s" % seed, lambda: asan_second_opinion(tier, seed))
@@ -447,6 +470,10 @@ def extra_checks(pid, cfg, tier, seed):
                      "oracle": "C02:asan-build-failed", "disc": "1", "d4": "0", "shrinkable": False}]
         return {"oracle_hits": hits, "evaluations": r["histories"], "distinct_nontrivial": 0,
                 "evidence": {"asan_second_opinion": {k: r.get(k) for k in ("built", "histories", "outside_the_preconditions_skipped", "implementation_crashes_or_reports", "n_hits")}}}
+    if pid == "C12":
+        r = _cached("rawadopt", rawadopt_run)
+        return {"oracle_hits": r["hits"], "evaluations": r["lines"], "distinct_nontrivial": 0,
+                "evidence": {"raw_api_on_adopted_objects_by_payload_layout": {"steps_compared": r["lines"], "failures": len(r["hits"])}}}
     if pid == "C10":
         r = c10_census()
         return {"oracle_hits": [], "tie_breaks": r["ties"], "evaluations": r["sites"], "distinct_nontrivial": 0,
